@@ -55,6 +55,25 @@ func (c *AcmeStorages) Acquire(name string) *AcmeCerts {
 	return storage
 }
 
+// Clear moves all the storages to the removal list. Used by full syncs,
+// which start from scratch but still need to know what disappeared.
+func (c *AcmeStorages) Clear() {
+	for name, item := range c.items {
+		c.itemsDel[name] = item
+	}
+	c.items = map[string]*AcmeCerts{}
+	c.itemsAdd = map[string]*AcmeCerts{}
+	c.cleared = true
+}
+
+// ClearStorages creates a new and empty AcmeData which inherits the
+// storages of the receiver, cleared.
+func (acme *AcmeData) ClearStorages() *AcmeData {
+	storages := acme.Storages()
+	storages.Clear()
+	return &AcmeData{storages: storages}
+}
+
 func (c *AcmeCerts) clone() *AcmeCerts {
 	certs := make(map[string]struct{}, len(c.certs))
 	for cert := range c.certs {
@@ -107,7 +126,9 @@ func buildAcmeStorages(items map[string]*AcmeCerts) []string {
 func (c *AcmeStorages) shrink() {
 	for item, del := range c.itemsDel {
 		if add, found := c.itemsAdd[item]; found && reflect.DeepEqual(add, del) {
-			delete(c.itemsAdd, item)
+			if !c.cleared {
+				delete(c.itemsAdd, item)
+			}
 			delete(c.itemsDel, item)
 		}
 	}
@@ -127,6 +148,7 @@ func (c *AcmeStorages) RemoveAll(names []string) {
 func (c *AcmeStorages) Commit() {
 	c.itemsAdd = map[string]*AcmeCerts{}
 	c.itemsDel = map[string]*AcmeCerts{}
+	c.cleared = false
 }
 
 // AddDomains ...
